@@ -54,6 +54,16 @@ def label_pool(matrix=False, n_min=1, n_max=6):
     return st.builds(lambda p, n: list(p[:n]), st.sampled_from(pools), st.integers(n_min, n_max))
 
 
+def pick(*weighted):
+    """Weighted choice that is not dominated by Hypothesis' preference for the
+    first element of sampled_from: pick(('a', 3), ('b', 1)).  Shrinks towards
+    the first entry."""
+    table = []
+    for v, w in weighted:
+        table.extend([v] * w)
+    return st.integers(0, len(table) - 1).map(lambda i: table[i])
+
+
 INT_COEFS = st.sampled_from([-4, -3, -2, -1, 1, 2, 3, 4])
 SMALL_INT_COEFS = st.sampled_from([-2, -1, 1, 2])
 DYADIC_COEFS = st.builds(lambda k: k / 8, st.integers(-64, 64).filter(lambda k: k != 0))
